@@ -103,6 +103,11 @@ fn build_xlsb_simple(sheets: &[SSheet]) -> Vec<u8> {
 }
 
 fn build_xls_simple(sheets: &[SSheet]) -> Vec<u8> {
+    biff::xls_bytes(&xls_workbook(sheets))
+}
+
+/// the BIFF8 workbook of the simple xls encoding (for callers that add further streams)
+pub fn xls_workbook(sheets: &[SSheet]) -> biff::Workbook {
     let mut wb = biff::Workbook::default();
     for s in sheets {
         let mut recs = Vec::new();
@@ -116,7 +121,7 @@ fn build_xls_simple(sheets: &[SSheet]) -> Vec<u8> {
         }
         wb.sheets.push(biff::Sheet { name: biff::XlStr::new(&s.name), dims: None, recs });
     }
-    biff::xls_bytes(&wb)
+    wb
 }
 
 fn build_ods_simple(sheets: &[SSheet]) -> Vec<u8> {
